@@ -19,6 +19,7 @@
 import OttoVerif.Base.F64
 import OttoVerif.Base.Str
 import OttoVerif.C05.Model
+import OttoVerif.C06.Model
 namespace OttoVerif.C13
 open OttoVerif.F64 OttoVerif.Str
 
@@ -228,6 +229,32 @@ def goAtan2 (L : Lib) (y x : FV) : FV :=
 /-- builtinMathAtan2 (l.40): `if math.IsNaN(y) || math.IsNaN(x) { return NaN }` -/
 def mathAtan2 (L : Lib) (y x : FV) : FV :=
   if isNaN y || isNaN x then .nan else goAtan2 L y x
+
+/-! ### the Value a Math function returns: kind and text
+
+  Every builtinMath* ends in `return float64Value(…)` (inline.go: `Value{kind: valueNumber, value: float64}`),
+  also for integral results.  The Go kind of a number Value is observable: Value.string() prints an
+  int64-kinded number with strconv.FormatInt and a float64-kinded one with floatToString (value_string.go),
+  and Export() hands out the Go value as held. -/
+
+inductive NumKind | float64 | int64
+deriving DecidableEq, Repr
+
+structure NumVal where
+  kind : NumKind
+  val : FV
+
+/-- float64Value (inline.go) -/
+def float64Value (x : FV) : NumVal := ⟨.float64, x⟩
+
+/-- the Value returned by every Math function for the number x it computed -/
+def mathValue (x : FV) : NumVal := float64Value x
+
+/-- Value.string() of a number Value (value_string.go l.60–100), as modelled for C06 -/
+def numValText (L : C06.Lib) (v : NumVal) : List Nat := C06.numValToString L (v.kind == .int64) v.val
+
+/-- `%T` of Value.Export() -/
+def exportType (v : NumVal) : String := match v.kind with | .float64 => "float64" | .int64 => "int64"
 
 /-- builtinGlobalIsNaN (builtin.go l.35) -/
 def globalIsNaN (E : C05.Env) (v : C05.Val) : Bool := isNaN (C05.toFloat E v)
